@@ -109,36 +109,31 @@ structure Base where
   b : Nat
   mb : Int
 
-/-- `exact = true`: the height is exactly the recorded one; `false`: at least the recorded one
-(after an exception the VM does not unwind the operand stack). -/
-def cmp (exact : Bool) (x m : Nat) : Prop := if exact = true then x = m else x ≤ m
-
-theorem cmp_le {exact : Bool} {x m : Nat} (h : cmp exact x m) : x ≤ m := by
-  unfold cmp at h; split at h <;> omega
-
-theorem cmp_of_eq {exact : Bool} {x m : Nat} (h : x = m) : cmp exact x m := by
-  unfold cmp; split <;> omega
-
 def isCall : RInstr → Bool
   | .callVal | .callImm _ => true
   | _ => false
 
-/-- The handler frames an activation of `fn` has installed. -/
-def hmap (fn : String) (hs : List (Nat × Nat)) : List Frame := hs.map fun x => ⟨fn, x.1⟩
+/-- The handlers an activation of `fn` at call depth `depth` with ghost data `B` has installed:
+`setTry` records the call depth, the operand-stack height and the memory pointer. -/
+def hmap (fn : String) (depth : Nat) (B : Base) (hs : List (Nat × Nat × Nat)) : List Handler :=
+  hs.map fun x => ⟨⟨fn, x.1⟩, depth, B.b + x.2.1, B.mb + (x.2.2 : Int)⟩
 
 /-- Frame-by-frame invariant. `m`, `mp`, `hd`: operand-stack length, memory pointer and handler
 stack at the moment the head frame is (again) the running one. For the running frame these are
-the current values; for a caller they are what the callee guarantees at its `ret`. -/
-def InvL (code : Code) (A : List FnAnn) (exact : Bool) :
-    Bool → List Frame → List Base → Nat → Int → List Frame → Prop
-  | _, [], [], _, _, _ => True
-  | top, f :: rest, B :: bs, m, mp, hd =>
+the current values; for a caller they are what the callee guarantees at its `ret`. `lo` (callers
+only): the operand-stack base of the frame above — the stack does not get shorter than that
+while the caller waits, in particular not shorter than the heights its handlers recorded. -/
+def InvL (code : Code) (A : List FnAnn) :
+    Bool → List Frame → List Base → Nat → Int → List Handler → Nat → Prop
+  | _, [], [], _, _, _, _ => True
+  | top, f :: rest, B :: bs, m, mp, hd, lo =>
     ∃ c fa a hd', lookupFn code A f.fn = some (c, fa) ∧ fa.pts[f.ip]? = some (some a) ∧
-      cmp exact (B.b + a.h) m ∧ 0 ≤ B.mb ∧ mp = B.mb + a.off ∧ hd = hmap f.fn a.hs ++ hd' ∧
-      (top = false → ∃ k i sp, f.ip = k + 1 ∧ c[k]? = some (i, sp) ∧ isCall i = true) ∧
-      InvL code A exact false rest bs (B.b + fa.results) B.mb hd'
-  | _, [], _ :: _, _, _, _ => False
-  | _, _ :: _, [], _, _, _ => False
+      B.b + a.h = m ∧ 0 ≤ B.mb ∧ mp = B.mb + a.off ∧ hd = hmap f.fn (rest.length + 1) B a.hs ++ hd' ∧
+      (top = false → (∃ k i sp, f.ip = k + 1 ∧ c[k]? = some (i, sp) ∧ isCall i = true) ∧ B.b ≤ lo ∧
+        (∀ x tl, a.hs = x :: tl → B.b + x.2.1 ≤ lo)) ∧
+      InvL code A false rest bs (B.b + fa.results) B.mb hd' B.b
+  | _, [], _ :: _, _, _, _, _ => False
+  | _, _ :: _, [], _, _, _, _ => False
 
 /-- Where the running instruction takes its argument count from the stack, the top of the stack
 is the constant pushed by the instruction before it. -/
@@ -146,26 +141,18 @@ def SiteOK (code : Code) (s : VMState) : Prop :=
   ∀ f rest c i sp n, s.calls = f :: rest → findCode code f.fn = some c → c[f.ip]? = some (i, sp) →
     usesArgc i = true → argcAt c f.ip = some n → ∃ o tl, s.stack = ⟨.int (I64.ofInt n), o⟩ :: tl
 
-/-- The height invariant of a VM state with respect to a verified annotation. -/
-def Inv (code : Code) (A : List FnAnn) (exact : Bool) (s : VMState) : Prop :=
-  (∃ bs, InvL code A exact true s.calls bs s.stack.length s.mp s.handlers) ∧ SiteOK code s
+/-- The ghost-annotated invariant: `bs` are the bases of the activations, top first. -/
+def InvB (code : Code) (A : List FnAnn) (s : VMState) (bs : List Base) : Prop :=
+  InvL code A true s.calls bs s.stack.length s.mp s.handlers 0 ∧ SiteOK code s
 
-theorem InvL_weaken {code : Code} {A : List FnAnn} {exact : Bool} :
-    ∀ {top : Bool} {fs : List Frame} {bs : List Base} {m m' : Nat} {mp : Int} {hd : List Frame},
-      cmp exact m m' → InvL code A exact top fs bs m mp hd → InvL code A exact top fs bs m' mp hd
-  | _, [], [], _, _, _, _, _, _ => by simp [InvL]
-  | _, [], _ :: _, _, _, _, _, _, h => by simp [InvL] at h
-  | _, _ :: _, [], _, _, _, _, _, h => by simp [InvL] at h
-  | top, f :: rest, B :: bs, m, m', mp, hd, hc, h => by
-    simp only [InvL] at h ⊢
-    obtain ⟨c, fa, a, hd', h1, h2, h3, h4⟩ := h
-    refine ⟨c, fa, a, hd', h1, h2, ?_, h4⟩
-    unfold cmp at hc h3 ⊢
-    split at hc <;> simp_all <;> omega
+/-- The height invariant of a VM state with respect to a verified annotation: for every frame the
+operand-stack height, the memory pointer and the installed handlers are the ones recorded for
+its instruction index (relative to the activation's base). -/
+def Inv (code : Code) (A : List FnAnn) (s : VMState) : Prop := ∃ bs, InvB code A s bs
 
-theorem InvL_top_false {code : Code} {A : List FnAnn} {exact : Bool} {fs : List Frame} {bs : List Base}
-    {m : Nat} {mp : Int} {hd : List Frame} (h : InvL code A exact false fs bs m mp hd) :
-    InvL code A exact true fs bs m mp hd := by
+theorem InvL_top {code : Code} {A : List FnAnn} {fs : List Frame} {bs : List Base}
+    {m : Nat} {mp : Int} {hd : List Handler} {lo lo' : Nat} (h : InvL code A false fs bs m mp hd lo) :
+    InvL code A true fs bs m mp hd lo' := by
   cases fs with
   | nil => cases bs <;> simp_all [InvL]
   | cons f rest =>
@@ -176,45 +163,41 @@ theorem InvL_top_false {code : Code} {A : List FnAnn} {exact : Bool} {fs : List 
       obtain ⟨c, fa, a, hd', h1, h2, h3, h4, h5, h6, _, h8⟩ := h
       exact ⟨c, fa, a, hd', h1, h2, h3, h4, h5, h6, by simp, h8⟩
 
-theorem InvL_to_false {code : Code} {A : List FnAnn} {exact : Bool} :
-    ∀ {top : Bool} {fs : List Frame} {bs : List Base} {m : Nat} {mp : Int} {hd : List Frame},
-      InvL code A exact top fs bs m mp hd → InvL code A false top fs bs m mp hd
-  | _, [], [], _, _, _, _ => by simp [InvL]
-  | _, [], _ :: _, _, _, _, h => by simp [InvL] at h
-  | _, _ :: _, [], _, _, _, h => by simp [InvL] at h
-  | top, f :: rest, B :: bs, m, mp, hd, h => by
-    simp only [InvL] at h ⊢
-    obtain ⟨c, fa, a, hd', h1, h2, h3, h4, h5, h6, h7, h8⟩ := h
-    exact ⟨c, fa, a, hd', h1, h2, by have := cmp_le h3; simpa [cmp] using this, h4, h5, h6, h7, InvL_to_false h8⟩
-
-theorem cmp_shift {exact : Bool} {b h len len' p q : Nat} (hc : cmp exact (b + h) len) (hp : p ≤ h)
-    (hl : len' + p = len + q) : cmp exact (b + (h - p + q)) len' := by
-  unfold cmp at hc ⊢; split at hc <;> simp_all <;> omega
+theorem InvL_length {code : Code} {A : List FnAnn} :
+    ∀ {top : Bool} {fs : List Frame} {bs : List Base} {m : Nat} {mp : Int} {hd : List Handler} {lo : Nat},
+      InvL code A top fs bs m mp hd lo → bs.length = fs.length
+  | _, [], [], _, _, _, _, _ => rfl
+  | _, [], _ :: _, _, _, _, _, h => by simp [InvL] at h
+  | _, _ :: _, [], _, _, _, _, h => by simp [InvL] at h
+  | top, f :: rest, B :: bs, m, mp, hd, lo, h => by
+    simp only [InvL] at h
+    obtain ⟨c, fa, a, hd', _, _, _, _, _, _, _, h8⟩ := h
+    simp [InvL_length h8]
 
 /-- The unpacked invariant of the running frame. -/
-structure Ctx (code : Code) (A : List FnAnn) (exact : Bool) (s : VMState) (f : Frame)
-    (rest : List Frame) (c : FnCode) (fa : FnAnn) (a : Ann) (B : Base) (bs : List Base) (hd' : List Frame) : Prop where
+structure Ctx (code : Code) (A : List FnAnn) (s : VMState) (f : Frame)
+    (rest : List Frame) (c : FnCode) (fa : FnAnn) (a : Ann) (B : Base) (bs : List Base) (hd' : List Handler) : Prop where
   hv : verify code A = true
   calls : s.calls = f :: rest
   look : lookupFn code A f.fn = some (c, fa)
   pt : fa.pts[f.ip]? = some (some a)
-  hcmp : cmp exact (B.b + a.h) s.stack.length
+  hh : B.b + a.h = s.stack.length
   mb : 0 ≤ B.mb
   mp : s.mp = B.mb + a.off
-  hd : s.handlers = hmap f.fn a.hs ++ hd'
-  below : InvL code A exact false rest bs (B.b + fa.results) B.mb hd'
+  hd : s.handlers = hmap f.fn (rest.length + 1) B a.hs ++ hd'
+  below : InvL code A false rest bs (B.b + fa.results) B.mb hd' B.b
 
-theorem Inv.unpack {code : Code} {A : List FnAnn} {exact : Bool} {s : VMState} (hv : verify code A = true)
-    (h : Inv code A exact s) {f : Frame} {rest : List Frame} (hc : s.calls = f :: rest) :
-    ∃ c fa a B bs hd', Ctx code A exact s f rest c fa a B bs hd' := by
-  obtain ⟨⟨bs, hl⟩, _⟩ := h
+theorem InvB.unpack {code : Code} {A : List FnAnn} {s : VMState} {bs0 : List Base} (hv : verify code A = true)
+    (h : InvB code A s bs0) {f : Frame} {rest : List Frame} (hc : s.calls = f :: rest) :
+    ∃ c fa a B bs hd', bs0 = B :: bs ∧ Ctx code A s f rest c fa a B bs hd' := by
+  obtain ⟨hl, _⟩ := h
   rw [hc] at hl
-  cases bs with
+  cases bs0 with
   | nil => simp [InvL] at hl
   | cons B bs =>
     simp only [InvL] at hl
     obtain ⟨c, fa, a, hd', h1, h2, h3, h4, h5, h6, _, h8⟩ := hl
-    exact ⟨c, fa, a, B, bs, hd', hv, hc, h1, h2, h3, h4, h5, h6, h8⟩
+    exact ⟨c, fa, a, B, bs, hd', rfl, hv, hc, h1, h2, h3, h4, h5, h6, h8⟩
 
 theorem siteOK_of {code : Code} {s' : VMState} {f : Frame} {rest : List Frame} {c : FnCode} {ip' : Nat}
     (hc : s'.calls = { f with ip := ip' } :: rest) (hf : findCode code f.fn = some c)
@@ -228,17 +211,17 @@ theorem siteOK_of {code : Code} {s' : VMState} {f : Frame} {rest : List Frame} {
   rw [hf] at hf'; cases hf'
   exact h i sp n hi hu ha
 
-/-- Lemma A: a step that stays in the running frame. -/
-theorem Ctx.intra {code : Code} {A : List FnAnn} {exact : Bool} {s : VMState} {f : Frame}
-    {rest : List Frame} {c : FnCode} {fa : FnAnn} {a : Ann} {B : Base} {bs : List Base} {hd' : List Frame}
-    (cx : Ctx code A exact s f rest c fa a B bs hd') {s' : VMState} {ip' : Nat} {a' : Ann}
+/-- Lemma A: a step that stays in the running frame keeps the bases. -/
+theorem Ctx.intra {code : Code} {A : List FnAnn} {s : VMState} {f : Frame}
+    {rest : List Frame} {c : FnCode} {fa : FnAnn} {a : Ann} {B : Base} {bs : List Base} {hd' : List Handler}
+    (cx : Ctx code A s f rest c fa a B bs hd') {s' : VMState} {ip' : Nat} {a' : Ann}
     (hc : s'.calls = { f with ip := ip' } :: rest) (hp : fa.pts[ip']? = some (some a'))
-    (hh : cmp exact (B.b + a'.h) s'.stack.length) (hm : s'.mp = B.mb + a'.off)
-    (hd : s'.handlers = hmap f.fn a'.hs ++ hd')
+    (hh : B.b + a'.h = s'.stack.length) (hm : s'.mp = B.mb + a'.off)
+    (hd : s'.handlers = hmap f.fn (rest.length + 1) B a'.hs ++ hd')
     (hs : ∀ i sp n, c[ip']? = some (i, sp) → usesArgc i = true → argcAt c ip' = some n →
       ∃ o tl, s'.stack = ⟨.int (I64.ofInt n), o⟩ :: tl) :
-    Inv code A exact s' := by
-  refine ⟨⟨B :: bs, ?_⟩, siteOK_of hc (lookup_findCode _ _ _ _ _ cx.look) hs⟩
+    InvB code A s' (B :: bs) := by
+  refine ⟨?_, siteOK_of hc (lookup_findCode _ _ _ _ _ cx.look) hs⟩
   rw [hc]
   simp only [InvL]
   exact ⟨c, fa, a', hd', cx.look, hp, hh, cx.mb, hm, hd, by simp, cx.below⟩
@@ -258,6 +241,17 @@ theorem argcAt_succ {c : FnCode} {k n : Nat} (h : argcAt c (k + 1) = some n) :
   · cases h
 
 theorem argcAt_zero (c : FnCode) : argcAt c 0 = none := rfl
+
+theorem argcAt_lt {c : FnCode} {ip n : Nat} (h : argcAt c ip = some n) : n < 2147483648 := by
+  cases ip with
+  | zero => simp [argcAt_zero] at h
+  | succ k =>
+    obtain ⟨v, _, _, h0, h1, rfl⟩ := argcAt_succ h
+    omega
+
+theorem ofInt_toNat (n : Nat) (h : n < 2147483648) : (I64.ofInt (n : Int)).toNat = n := by
+  simp only [I64.ofInt, BitVec.toNat_ofInt]
+  omega
 
 theorem site_fallthrough {c : FnCode} {k n : Nat} {i : RInstr} {sp : Span} (hk : c[k]? = some (i, sp))
     (hne : ∀ v, i ≠ .copyPush (.int v)) (h : argcAt c (k + 1) = some n) : False := by
@@ -312,29 +306,23 @@ theorem succs_simple {sig : String → Option (Nat × Nat)} {fn : String} {c : F
 
 /-! ## Exception dispatch into a handler of the running activation -/
 
-theorem Ctx.toFalse {code : Code} {A : List FnAnn} {exact : Bool} {s : VMState} {f : Frame}
-    {rest : List Frame} {c : FnCode} {fa : FnAnn} {a : Ann} {B : Base} {bs : List Base} {hd' : List Frame}
-    (cx : Ctx code A exact s f rest c fa a B bs hd') : Ctx code A false s f rest c fa a B bs hd' :=
-  ⟨cx.hv, cx.calls, cx.look, cx.pt, by have := cmp_le cx.hcmp; simpa [cmp] using this, cx.mb, cx.mp, cx.hd,
-    InvL_to_false cx.below⟩
-
-theorem Ctx.dispatch {code : Code} {A : List FnAnn} {exact : Bool} {s : VMState} {f : Frame}
-    {rest : List Frame} {c : FnCode} {fa : FnAnn} {a : Ann} {B : Base} {bs : List Base} {hd' : List Frame}
-    (cx : Ctx code A exact s f rest c fa a B bs hd') {pops : Nat}
+theorem Ctx.dispatch {code : Code} {A : List FnAnn} {s : VMState} {f : Frame}
+    {rest : List Frame} {c : FnCode} {fa : FnAnn} {a : Ann} {B : Base} {bs : List Base} {hd' : List Handler}
+    (cx : Ctx code A s f rest c fa a B bs hd') {pops : Nat}
     (hh : handlerOK fa.pts a pops = true) (he : handlerEntryOK c a = true) (hne : a.hs ≠ [])
-    {s' : VMState} (hk1 : s'.handlers = s.handlers) (hk2 : s'.mp = s.mp)
+    {s' : VMState} (hk1 : s'.handlers = s.handlers)
     (hcalls : s'.calls = s.calls ∨ s'.calls = advCalls s.calls)
     (hlen : s.stack.length ≤ s'.stack.length + pops)
     {msg : String} {tsp : Span} {s'' : VMState} (ht : throwTo s' msg tsp = .cont s'') :
-    Inv code A false s'' := by
+    InvB code A s'' (B :: bs) := by
   cases hhs : a.hs with
   | nil => exact absurd hhs hne
   | cons lh hs' =>
-    obtain ⟨l, H⟩ := lh
+    obtain ⟨l, H, o⟩ := lh
     simp only [handlerOK, hhs, Bool.and_eq_true, decide_eq_true_eq] at hh
     simp only [handlerEntryOK, hhs] at he
-    obtain ⟨hd0, hrest, below, o, st', hhd, hcs, rfl⟩ := throwTo_cont ht
-    have hhd0 : hd0 = ⟨f.fn, l⟩ := by
+    obtain ⟨hd0, hrest, c0, below, ob, st', hhd, hcs, rfl⟩ := throwTo_cont ht
+    have hhd0 : hd0 = ⟨⟨f.fn, l⟩, rest.length + 1, B.b + H, B.mb + (o : Int)⟩ := by
       rw [hk1, cx.hd, hhs] at hhd
       simp only [hmap, List.map_cons, List.cons_append, List.cons.injEq] at hhd
       exact hhd.1.symm
@@ -345,355 +333,21 @@ theorem Ctx.dispatch {code : Code} {A : List FnAnn} {exact : Bool} {s : VMState}
       · exact ⟨f.ip + 1, by rw [h, cx.calls]; rfl⟩
     obtain ⟨ip0, htop⟩ := htop
     have hbelow : below = rest := by
-      rcases hcs with ⟨top, h1, _⟩ | ⟨top, c0, h1, h2⟩
-      · rw [htop] at h1; simp only [List.cons.injEq] at h1; exact h1.2.symm
-      · rw [htop] at h1; simp only [List.cons.injEq] at h1
-        obtain ⟨rfl, _⟩ := h1
-        simp at h2
+      rw [htop] at hcs
+      simp only [List.length_cons, Nat.sub_self, List.drop_zero, List.cons.injEq] at hcs
+      exact hcs.2.symm
     subst hbelow
-    have hle := cmp_le cx.hcmp
-    refine cx.toFalse.intra (s' := push1 { s' with calls := ⟨f.fn, l⟩ :: below, st := st' } o) (ip' := l) rfl hh.1 ?_ ?_ ?_ ?_
-    · simp only [cmp, Bool.false_eq_true, if_false, push1_stack, List.length_cons]
+    have hle := cx.hh
+    refine cx.intra (s' := push1 { s' with calls := ⟨f.fn, l⟩ :: below,
+      stack := s'.stack.drop (s'.stack.length - (B.b + H)), mp := B.mb + (o : Int), st := st' } ob) (ip' := l)
+      rfl hh.1 ?_ ?_ ?_ ?_
+    · simp only [push1_stack, List.length_cons, List.length_drop]
       omega
-    · simp only [push1_mp]; rw [hk2, cx.mp]
+    · simp only [push1_mp]
     · simp only [push1_handlers]; rw [hk1, cx.hd, hhs]
     · intro i sp n hi hu _
       rw [hi] at he
       simp only [Bool.not_eq_true'] at he
       rw [he] at hu; cases hu
-
-/-! ## Soundness, instruction by instruction -/
-
-/-- What soundness says about one answer of `step`: a normal step re-establishes the invariant;
-a throw that is dispatched to a handler of the running activation (`hasHandler`) re-establishes
-the lower-bound invariant; a panic is none of the four excluded ones. -/
-def Sound (code : Code) (A : List FnAnn) (exact : Bool) (hasHandler : Prop) : StepRes → Prop :=
-  Sat3 (fun s' => Inv code A exact s')
-    (fun x s' => ∀ msg tsp, x = .throw msg tsp → hasHandler →
-      ∀ s'', throwTo s' msg tsp = .cont s'' → Inv code A false s'')
-    (fun why => why ≠ "stack underflow" ∧ NoBad why)
-
-theorem _root_.HmsProofs.Lemmas.VMStep.Sat3.mono' {N N' : VMState → Prop} {I I' : Interrupt → VMState → Prop} {P P' : String → Prop} {r : StepRes}
-    (h : Sat3 N I P r) (hN : ∀ s, r = .next s → N s → N' s) (hI : ∀ i s, r = .intr i s → I i s → I' i s)
-    (hP : ∀ w s, r = .panic w s → P w → P' w) : Sat3 N' I' P' r := by
-  cases r with
-  | next s => exact hN s rfl h
-  | intr i s => exact hI i s rfl h
-  | panic w s => exact hP w s rfl h
-
-section
-variable {code : Code} {A : List FnAnn} {exact : Bool} {s : VMState} {f : Frame}
-  {rest : List Frame} {c : FnCode} {fa : FnAnn} {a : Ann} {B : Base} {bs : List Base} {hd' : List Frame}
-  {i : RInstr} {sp : Span} {pops : Nat} {l : List (Nat × Ann)}
-
-theorem Ctx.adv (cx : Ctx code A exact s f rest c fa a B bs hd') :
-    advCalls s.calls = { f with ip := f.ip + 1 } :: rest := by
-  rw [cx.calls]; rfl
-
-theorem simple_sound (cx : Ctx code A exact s f rest c fa a B bs hd')
-    (po : PointOK code A f.fn c fa f.ip a i sp pops l) (lim : Limits) {p q : Nat}
-    (hse : simpleEff i = some (p, q)) : Sound code A exact (a.hs ≠ []) (step code lim s i sp) := by
-  have hsucc := po.succ
-  rw [succs_simple hse] at hsucc
-  split at hsucc
-  · rename_i hp
-    simp only [Option.some.injEq, Prod.mk.injEq] at hsucc
-    obtain ⟨rfl, rfl⟩ := hsucc
-    have hflow := po.flow (f.ip + 1, { a with h := a.h - p + q }) (by simp)
-    have hle := cmp_le cx.hcmp
-    refine (simple_spec code lim s i sp p q hse).mono' ?_ ?_ ?_
-    · rintro s' hst ⟨h1, h2, h3, h4, h5, h6⟩
-      refine cx.intra (by rw [h3, cx.adv]) hflow (cmp_shift cx.hcmp hp h2) (by rw [h5, cx.mp]) (by rw [h4, cx.hd]) ?_
-      intro i' sp' n hi' hu hn
-      -- the only way to fall through onto a dynamic-count instruction is from its `copyPush`
-      obtain ⟨v, spv, hk, hv0, hv1, rfl⟩ := argcAt_succ hn
-      have := po.instr
-      rw [hk] at this
-      simp only [Option.some.injEq, Prod.mk.injEq] at this
-      obtain ⟨rfl, rfl⟩ := this
-      rw [step_copyPush_int] at hst
-      simp only [StepRes.next.injEq] at hst
-      subst hst
-      exact ⟨none, s.stack, by simp [Int.toNat_of_nonneg hv0]⟩
-    · rintro x s' _ ⟨h1, h2, h3, h4, h5, h6, h7⟩ msg tsp _ hne s'' ht
-      exact cx.dispatch po.handler po.entry hne h5 h6 (Or.inl h4) h2 ht
-    · rintro why _ _ ⟨h1, h2⟩
-      exact ⟨fun e => by have := h1 e; omega, h2⟩
-  · cases hsucc
-
-/-- Falling through from an instruction that is not `copyPush (int _)` never lands on a
-dynamic-count instruction. -/
-theorem site_ft (hi : c[f.ip]? = some (i, sp)) (hne : ∀ v, i ≠ .copyPush (.int v)) {stk : List SVal} :
-    ∀ i' sp' n, c[f.ip + 1]? = some (i', sp') → usesArgc i' = true → argcAt c (f.ip + 1) = some n →
-      ∃ o tl, stk = ⟨.int (I64.ofInt n), o⟩ :: tl := by
-  intro i' sp' n _ _ hn
-  exact (site_fallthrough hi hne hn).elim
-
-/-- A jump never lands on a dynamic-count instruction. -/
-theorem site_tg (cx : Ctx code A exact s f rest c fa a B bs hd') (hi : c[f.ip]? = some (i, sp)) {t : Nat}
-    (hj : i = .jump t ∨ i = .jumpIfFalse t ∨ ∃ fn, i = .setTry fn t) {a' : Ann}
-    (hp : fa.pts[t]? = some (some a')) {stk : List SVal} :
-    ∀ i' sp' n, c[t]? = some (i', sp') → usesArgc i' = true → argcAt c t = some n →
-      ∃ o tl, stk = ⟨.int (I64.ofInt n), o⟩ :: tl := by
-  intro i' sp' n hi' hu _
-  exact (site_target cx.hv cx.look hp hi' hu (isTarget_of hi hj)).elim
-
-theorem jump_sound (cx : Ctx code A exact s f rest c fa a B bs hd')
-    (po : PointOK code A f.fn c fa f.ip a (.jump t) sp pops l) (lim : Limits) :
-    Sound code A exact (a.hs ≠ []) (step code lim s (.jump t) sp) := by
-  have hsucc := po.succ
-  simp only [succs, Option.some.injEq, Prod.mk.injEq] at hsucc
-  obtain ⟨rfl, rfl⟩ := hsucc
-  have hflow := po.flow (t, a) (by simp)
-  rw [step_jump _ _ _ _ _ _ _ cx.calls]
-  exact cx.intra rfl hflow cx.hcmp cx.mp cx.hd (site_tg cx po.instr (Or.inl rfl) hflow)
-
-theorem nonempty_of_cmp (cx : Ctx code A exact s f rest c fa a B bs hd') (h : 1 ≤ a.h) :
-    ∃ x tl, s.stack = x :: tl := by
-  have := cmp_le cx.hcmp
-  cases hs : s.stack with
-  | nil => rw [hs] at this; simp at this; omega
-  | cons x tl => exact ⟨x, tl, rfl⟩
-
-theorem jumpIfFalse_sound (cx : Ctx code A exact s f rest c fa a B bs hd')
-    (po : PointOK code A f.fn c fa f.ip a (.jumpIfFalse t) sp pops l) (lim : Limits) :
-    Sound code A exact (a.hs ≠ []) (step code lim s (.jumpIfFalse t) sp) := by
-  have hsucc := po.succ
-  simp only [succs] at hsucc
-  split at hsucc
-  · rename_i hp
-    simp only [Option.some.injEq, Prod.mk.injEq] at hsucc
-    obtain ⟨rfl, rfl⟩ := hsucc
-    have hf1 := po.flow (f.ip + 1, { a with h := a.h - 1 }) (by simp)
-    have hf2 := po.flow (t, { a with h := a.h - 1 }) (by simp)
-    obtain ⟨x, tl, hs⟩ := nonempty_of_cmp cx hp
-    refine (step_jumpIfFalse code lim s t sp x tl hs).mono' ?_ ?_ ?_
-    · rintro s' _ ⟨h1, ⟨h2, h3, h4⟩, h5⟩
-      have hc : cmp exact (B.b + (a.h - 1)) s'.stack.length := by
-        have := cmp_shift (q := 0) cx.hcmp hp (len' := s'.stack.length) (by rw [h1, hs]; simp)
-        simpa using this
-      rcases h5 with h5 | ⟨f', fr, h5, h6⟩
-      · exact cx.intra (by rw [h5, cx.adv]) hf1 hc (by rw [h3, cx.mp]) (by rw [h2, cx.hd])
-          (site_ft po.instr (by intro v; simp))
-      · rw [cx.calls] at h5
-        simp only [List.cons.injEq] at h5
-        obtain ⟨rfl, rfl⟩ := h5
-        exact cx.intra h6 hf2 hc (by rw [h3, cx.mp]) (by rw [h2, cx.hd])
-          (site_tg cx po.instr (Or.inr (Or.inl rfl)) hf2)
-    · intro _ _ _ h; exact h.elim
-    · intro _ _ _ h; exact h
-  · cases hsucc
-
-theorem getVar_sound (cx : Ctx code A exact s f rest c fa a B bs hd') {k : Nat}
-    (po : PointOK code A f.fn c fa f.ip a (.getVar k) sp pops l) (lim : Limits)
-    (hlim : s.mp < (lim.memory : Int)) :
-    Sound code A exact (a.hs ≠ []) (step code lim s (.getVar k) sp) := by
-  have hsucc := po.succ
-  simp only [succs] at hsucc
-  split at hsucc
-  · rename_i hk
-    simp only [Option.some.injEq, Prod.mk.injEq] at hsucc
-    obtain ⟨rfl, rfl⟩ := hsucc
-    have hf1 := po.flow (f.ip + 1, { a with h := a.h + 1 }) (by simp)
-    have hmp := cx.mp
-    have hmb := cx.mb
-    rcases step_getVar code lim s k sp with ⟨h1, _⟩ | ⟨_, ⟨v, _, h2⟩ | ⟨_, h2⟩⟩
-    · exact absurd ⟨by omega, by omega⟩ h1
-    · rw [h2]
-      refine cx.intra (by simp [cx.adv]) hf1 ?_ (by simp [cx.mp]) (by simp [cx.hd])
-        (site_ft po.instr (by intro v; simp))
-      have := cmp_shift (p := 0) (q := 1) cx.hcmp (Nat.zero_le _)
-        (len' := (advance (push1 s v)).stack.length) (by simp)
-      simpa using this
-    · rw [h2]; simp [Sound, Sat3, NoBad]
-  · cases hsucc
-
-theorem setVar_sound (cx : Ctx code A exact s f rest c fa a B bs hd') {k : Nat}
-    (po : PointOK code A f.fn c fa f.ip a (.setVar k) sp pops l) (lim : Limits)
-    (hlim : s.mp < (lim.memory : Int)) :
-    Sound code A exact (a.hs ≠ []) (step code lim s (.setVar k) sp) := by
-  have hsucc := po.succ
-  simp only [succs] at hsucc
-  split at hsucc
-  · rename_i hk
-    simp only [Option.some.injEq, Prod.mk.injEq] at hsucc
-    obtain ⟨rfl, rfl⟩ := hsucc
-    have hf1 := po.flow (f.ip + 1, { a with h := a.h - 1 }) (by simp)
-    have hmp := cx.mp
-    have hmb := cx.mb
-    obtain ⟨x, tl, hs⟩ := nonempty_of_cmp cx hk.2
-    rcases step_setVar code lim s k sp with ⟨h0, _⟩ | ⟨x', tl', hs', ⟨h1, _⟩ | ⟨_, h2⟩⟩
-    · rw [hs] at h0; cases h0
-    · exact absurd ⟨by omega, by omega⟩ h1
-    · rw [hs] at hs'; cases hs'
-      rw [h2]
-      refine cx.intra (by simp [memSet, cx.adv]) hf1 ?_ (by simp [memSet, cx.mp]) (by simp [memSet, cx.hd])
-        (site_ft po.instr (by intro v; simp))
-      have := cmp_shift (p := 1) (q := 0) cx.hcmp hk.2
-        (len' := (advance (memSet { s with stack := tl } (s.mp - (k : Int)) x.v)).stack.length)
-        (by simp [memSet, hs])
-      simpa using this
-  · cases hsucc
-
-theorem setTry_sound (cx : Ctx code A exact s f rest c fa a B bs hd') {fn : String}
-    (po : PointOK code A f.fn c fa f.ip a (.setTry fn t) sp pops l) (lim : Limits) :
-    Sound code A exact (a.hs ≠ []) (step code lim s (.setTry fn t) sp) := by
-  have hsucc := po.succ
-  simp only [succs] at hsucc
-  split at hsucc
-  · rename_i hfn
-    simp only [Option.some.injEq, Prod.mk.injEq] at hsucc
-    obtain ⟨rfl, rfl⟩ := hsucc
-    have hf1 := po.flow (f.ip + 1, { a with hs := (t, a.h) :: a.hs }) (by simp)
-    rw [step_setTry]
-    refine cx.intra (by simp [cx.adv]) hf1 (by simpa using cx.hcmp) (by simp [cx.mp]) ?_
-      (site_ft po.instr (by intro v; simp))
-    simp [hmap, cx.hd, hfn]
-  · cases hsucc
-
-theorem popTry_sound (cx : Ctx code A exact s f rest c fa a B bs hd')
-    (po : PointOK code A f.fn c fa f.ip a .popTry sp pops l) (lim : Limits) :
-    Sound code A exact (a.hs ≠ []) (step code lim s .popTry sp) := by
-  have hsucc := po.succ
-  simp only [succs] at hsucc
-  split at hsucc
-  · rename_i lh hs' hhs
-    simp only [Option.some.injEq, Prod.mk.injEq] at hsucc
-    obtain ⟨rfl, rfl⟩ := hsucc
-    have hf1 := po.flow (f.ip + 1, { a with hs := hs' }) (by simp)
-    have hh : s.handlers = ⟨f.fn, lh.1⟩ :: (hmap f.fn hs' ++ hd') := by
-      rw [cx.hd, hhs]; simp [hmap]
-    rw [step_popTry _ _ _ _ _ _ hh]
-    exact cx.intra (by simp [cx.adv]) hf1 (by simpa using cx.hcmp) (by simp [cx.mp]) (by simp)
-      (site_ft po.instr (by intro v; simp))
-  · cases hsucc
-
-theorem addMp_sound (cx : Ctx code A exact s f rest c fa a B bs hd') {n : Int}
-    (po : PointOK code A f.fn c fa f.ip a (.addMp n) sp pops l) (lim : Limits) :
-    Sound code A exact (a.hs ≠ []) (step code lim s (.addMp n) sp) := by
-  have hsucc := po.succ
-  simp only [succs] at hsucc
-  split at hsucc
-  · rename_i hn
-    simp only [Option.some.injEq, Prod.mk.injEq] at hsucc
-    obtain ⟨rfl, rfl⟩ := hsucc
-    have hf1 := po.flow (f.ip + 1, { a with off := ((a.off : Int) + n).toNat }) (by simp)
-    rcases step_addMp code lim s n sp with ⟨_, h2⟩ | ⟨_, msg, h2⟩
-    · rw [h2]
-      refine cx.intra (by simp [cx.adv]) hf1 (by simpa using cx.hcmp) ?_ (by simp [cx.hd])
-        (site_ft po.instr (by intro v; simp))
-      simp only [advance_mp]
-      rw [cx.mp, Int.toNat_of_nonneg hn]; omega
-    · rw [h2]
-      intro msg' tsp h; cases h
-  · cases hsucc
-
-theorem throw_sound (cx : Ctx code A exact s f rest c fa a B bs hd')
-    (po : PointOK code A f.fn c fa f.ip a .throw sp pops l) (lim : Limits) :
-    Sound code A exact (a.hs ≠ []) (step code lim s .throw sp) := by
-  have hsucc := po.succ
-  simp only [succs] at hsucc
-  split at hsucc
-  · rename_i hp
-    simp only [Option.some.injEq, Prod.mk.injEq] at hsucc
-    obtain ⟨rfl, rfl⟩ := hsucc
-    obtain ⟨x, tl, hs⟩ := nonempty_of_cmp cx hp
-    refine (step_throw code lim s sp x tl hs).mono' ?_ ?_ ?_
-    · intro _ _ h; exact h.elim
-    · rintro x' s' _ ⟨h1, ⟨h2, h3, _⟩, h5⟩ msg tsp _ hne s'' ht
-      exact cx.dispatch po.handler po.entry hne h2 h3 h5.symm (by rw [h1, hs]; simp) ht
-    · intro _ _ _ h; exact h
-  · cases hsucc
-
-theorem ret_sound (cx : Ctx code A exact s f rest c fa a B bs hd')
-    (po : PointOK code A f.fn c fa f.ip a .ret sp pops l) (lim : Limits) :
-    Sound code A exact (a.hs ≠ []) (step code lim s .ret sp) := by
-  have hsucc := po.succ
-  simp only [succs] at hsucc
-  split at hsucc
-  · rename_i hr
-    obtain ⟨h1, h2, h3⟩ := hr
-    rw [step_ret]
-    have hcalls : ({ s with calls := s.calls.tail } : VMState).calls = rest := by simp [cx.calls]
-    have hhd : s.handlers = hd' := by rw [cx.hd, h3]; simp [hmap]
-    have hmp : s.mp = B.mb := by rw [cx.mp, h2]; simp
-    have hb : InvL code A exact false rest bs s.stack.length s.mp s.handlers := by
-      rw [hhd, hmp]
-      exact InvL_weaken (by rw [← h1]; exact cx.hcmp) cx.below
-    refine ⟨⟨bs, by rw [hcalls]; exact InvL_top_false hb⟩, ?_⟩
-    -- the caller resumes right after a call instruction, which is not a `copyPush`
-    intro g rest' cg i' sp' n hc' hf' hi' hu hn
-    rw [hcalls] at hc'
-    subst hc'
-    cases bs with
-    | nil => simp [InvL] at hb
-    | cons Bg bs' =>
-      simp only [InvL] at hb
-      obtain ⟨cg', fg, ag, _, hlk, _, _, _, _, _, hret, _⟩ := hb
-      obtain ⟨k, ik, spk, hk1, hk2, hk3⟩ := hret trivial
-      have := lookup_findCode _ _ _ _ _ hlk
-      rw [hf'] at this; cases this
-      rw [hk1] at hn
-      refine (site_fallthrough hk2 ?_ hn).elim
-      intro v e; rw [e] at hk3; cases hk3
-  · cases hsucc
-
-/-- Lemma B: entering a function. `d`: operands removed before the callee starts (0 for
-`callImm`, 2 for `callVal`). -/
-theorem Ctx.call (cx : Ctx code A exact s f rest c fa a B bs hd') (hi : c[f.ip]? = some (i, sp))
-    (hcall : isCall i = true) {g : String} {cg : FnCode} {fg : FnAnn}
-    (hg : lookupFn code A g = some (cg, fg)) {d : Nat} {s' : VMState} {a' : Ann}
-    (hc : s'.calls = ⟨g, 0⟩ :: { f with ip := f.ip + 1 } :: rest)
-    (hlen : s'.stack.length + d = s.stack.length) (hmp : s'.mp = s.mp) (hh : s'.handlers = s.handlers)
-    (hd : d + fg.params ≤ a.h) (hp : fa.pts[f.ip + 1]? = some (some a'))
-    (ha1 : a'.h = a.h - (d + fg.params) + fg.results) (ha2 : a'.off = a.off) (ha3 : a'.hs = a.hs) :
-    Inv code A exact s' := by
-  obtain ⟨_, hentry, _⟩ := verify_fn cx.hv hg
-  have hle := cmp_le cx.hcmp
-  have hmb := cx.mb
-  have hmpe := cx.mp
-  refine ⟨⟨⟨B.b + a.h - d - fg.params, s.mp⟩ :: B :: bs, ?_⟩, ?_⟩
-  · rw [hc]
-    simp only [InvL]
-    refine ⟨cg, fg, _, s.handlers, hg, hentry, ?_, by omega, by simp [hmp], by simp [hmap, hh], by simp, ?_⟩
-    · have := cmp_shift (p := d) (q := 0) cx.hcmp (by omega) (len' := s'.stack.length) (by omega)
-      have e : B.b + a.h - d - fg.params + fg.params = B.b + (a.h - d + 0) := by omega
-      simp only [e]; exact this
-    · refine ⟨c, fa, a', hd', cx.look, hp, cmp_of_eq (by rw [ha1]; omega), cx.mb, by rw [ha2]; exact cx.mp,
-        by rw [ha3]; exact cx.hd, ?_, cx.below⟩
-      intro _; exact ⟨f.ip, i, sp, rfl, hi, hcall⟩
-  · intro f' rest' c' i' sp' n hc' _ _ _ hn
-    rw [hc] at hc'
-    simp only [List.cons.injEq] at hc'
-    obtain ⟨rfl, _⟩ := hc'
-    simp [argcAt_zero] at hn
-
-theorem sigOf_some {g : String} {p q : Nat} (h : sigOf code A g = some (p, q)) :
-    ∃ cg fg, lookupFn code A g = some (cg, fg) ∧ fg.params = p ∧ fg.results = q := by
-  simp only [sigOf, Option.map_eq_some_iff] at h
-  obtain ⟨⟨cg, fg⟩, h1, h2⟩ := h
-  simp only [Prod.mk.injEq] at h2
-  exact ⟨cg, fg, h1, h2.1, h2.2⟩
-
-theorem callImm_sound (cx : Ctx code A exact s f rest c fa a B bs hd') {g : String}
-    (po : PointOK code A f.fn c fa f.ip a (.callImm g) sp pops l) (lim : Limits) :
-    Sound code A exact (a.hs ≠ []) (step code lim s (.callImm g) sp) := by
-  have hsucc := po.succ
-  simp only [succs] at hsucc
-  split at hsucc
-  · rename_i p q hsig
-    obtain ⟨cg, fg, hg, rfl, rfl⟩ := sigOf_some hsig
-    split at hsucc
-    · rename_i hp
-      simp only [Option.some.injEq, Prod.mk.injEq] at hsucc
-      obtain ⟨rfl, rfl⟩ := hsucc
-      have hf1 := po.flow (f.ip + 1, { a with h := a.h - fg.params + fg.results }) (by simp)
-      rw [step_callImm]
-      exact cx.call po.instr rfl hg (d := 0) (by simp [cx.adv]) (by simp) (by simp) (by simp) (by omega) hf1
-        (by simp) rfl rfl
-    · cases hsucc
-  · cases hsucc
-
-end
 
 end HmsProofs.Lemmas.VMCheck
